@@ -2,6 +2,7 @@ import Driver.GateParse
 import Driver.SimParse
 import Q1t.Model.Conj
 import Q1t.Spec.Clifford
+import Q1t.Spec.Unitaries
 /-!
 Driver for C06.  Requests (fields separated by ` | `):
 
@@ -161,6 +162,48 @@ def intertwineDev (M : AMat) (P P' : AMat) (flip : Bool) : Option Float := do
       max acc (CFloat.dist (aget lhs r c) rhs)) acc) 0.0
   pure dev
 
+/-! matrix-free reference for terms too wide for a matrix: the rule of every PRIMITIVE is read off
+its documented 2×2 / 4×4 matrix (`Spec.specMatrix`, searched among the ±Pauli strings — independent
+of the generated table), and composed through `Kron` (split), `Composite` (gather, apply, scatter)
+and `Loop` (iterate).  `none` = the term is not well-formed / not Clifford. -/
+
+open Q1t.Spec.Clifford in
+def primRef (g : G) (ops : List P) : Option (Bool × List P) :=
+  let k := Gate.nrBits g
+  if ops.length ≠ k ∨ k > 2 then none else
+  let M : LMat CFloat := Spec.specMatrix g
+  let lhs := conjBy Float M (pauliMat Float ops)
+  (allStrings k).findSome? fun o =>
+    if maxDist lhs (pauliMat Float o) ≤ 1e-9 then some (false, o)
+    else if maxDist lhs (signed true (pauliMat Float o)) ≤ 1e-9 then some (true, o)
+    else none
+
+mutual
+partial def refConj : G → List P → Option (Bool × List P)
+  | .C _, _ => none
+  | .Kron a b, ops =>
+    let n0 := Gate.nrBits a
+    if ops.length ≠ n0 + Gate.nrBits b then none else do
+      let (f0, o0) ← refConj a (ops.take n0)
+      let (f1, o1) ← refConj b (ops.drop n0)
+      pure (f0 != f1, o0 ++ o1)
+  | .Composite _ n body, ops => if ops.length ≠ n then none else refOps n body ops false
+  | .Loop _ iters _ n body, ops =>
+    if ops.length ≠ n then none else
+    (List.range iters).foldlM (fun (acc : Bool × List P) _ => do
+      let (f, o) ← refOps n body acc.2 false
+      pure (acc.1 != f, o)) (false, ops)
+  | g, ops => primRef g ops
+partial def refOps (n : Nat) : OpList Float → List P → Bool → Option (Bool × List P)
+  | .nil, ops, flip => some (flip, ops)
+  | .cons g bits rest, ops, flip =>
+    if bits.length ≠ Gate.nrBits g ∨ !bits.all (· < n) ∨ bits.eraseDups.length ≠ bits.length then none else do
+      let loc := bits.map fun b => ops.getD b .I
+      let (f, loc') ← refConj g loc
+      let ops' := (bits.zip loc').foldl (fun acc bp => acc.set bp.1 bp.2) ops
+      refOps n rest ops' (flip != f)
+end
+
 open Q1t.Spec.Clifford in
 /-- the listed strings of a term: claim ⇒ Clifford unitary and every answer exact; no claim ⇒ every answer refuses -/
 def checkConjList (g : G) (flag : Bool) (strings : List (List P)) (answers : List (List String))
@@ -176,7 +219,18 @@ def checkConjList (g : G) (flag : Bool) (strings : List (List P)) (answers : Lis
     | none => "ok"
   else
     match mat with
-    | none => "skip"   -- malformed term: no matrix, nothing to compare the rule with
+    | none =>
+      -- no matrix (malformed term, or too wide): the matrix-free reference, where it is defined
+      if (strings.head?.bind (refConj g)).isNone then "skip" else
+      let bad := (strings.zip answers).filterMap fun (s, a) =>
+        match refConj g s, parseAns a with
+        | some (fl, o), .ok fl' o' =>
+          if fl = fl' ∧ o = o' then none
+          else some s!"fail conj-rule-wrong [{strDigits s}] -> {" ".intercalate a} expected {if fl then 1 else 0} {strDigits o}"
+        | some _, .refused w => some s!"fail claiming-refuses [{strDigits s}] -> {w}"
+        | some _, .bad => some s!"fail unparsable-answer [{strDigits s}]"
+        | none, _ => some s!"fail reference-undefined [{strDigits s}]"
+      (match bad with | [] => "ok" | b :: _ => b)
     | some M =>
       let d := 2 ^ k
       if M.length ≠ d then s!"fail matrix-dimension {M.length} for {k} qubits"
